@@ -1277,3 +1277,128 @@ def filter_arg_pure(ctx):
             ctx.ok(key, f.loc(sites[0][0]), '%d filter constructor sites take only header-visible properties' % len(sites))
     if n == 0:
         ctx.anchor_missing('filter chain construction in the XZ writer / reader')
+
+
+# --------------------------------------------------------------------------- VALIDATE-PARITY
+
+def _variant_rem_table(F, f, prov):
+    """{variant index: modulus} for `x % k` checks selected by a switch on a FilterType discriminant in f.
+    Handles both shapes: a per-arm `% const`, and a per-arm constant assigned to a local that is the divisor of
+    one common `%`. Variants without a modulus are absent."""
+    out = {}
+    for s in f.reachable:
+        t = f.blocks[s]['term']
+        if t['k'] != 'switch':
+            continue
+        dl = op_local(t['discr'])
+        dd = f.whole_defs(dl) if dl is not None else []
+        if not (len(dd) == 1 and dd[0][2] == 'assign' and dd[0][3]['rv']['r'] == 'discr' and 'FilterType' in dd[0][3]['rv']['p'].get('ty', '')):
+            continue
+        arms = {}
+        for v, tgt in t['arms']:
+            arms.setdefault(tgt, []).append(int(v))
+        for tgt, vs in arms.items():
+            region = set()
+            # follow straight-line blocks until a join
+            cur = tgt
+            chain = [tgt]
+            while len(f.succs(cur)) == 1 and len(f.pred[f.succs(cur)[0]]) == 1:
+                cur = f.succs(cur)[0]
+                chain.append(cur)
+            # assert terminators split blocks: follow them too
+            extra = []
+            for b in chain:
+                for nb in f.succs(b):
+                    if f.blocks[b]['term']['k'] == 'assert' and nb not in chain:
+                        extra.append(nb)
+            for b in set(chain) | set(extra) | region:
+                for st in f.blocks[b]['stmts']:
+                    if st['k'] != 'assign':
+                        continue
+                    rv = st['rv']
+                    if rv['r'] == 'bin' and rv['op'] == 'Rem':
+                        k = const_val(rv['b'])
+                        if isinstance(k, int) and k > 1:
+                            for v in vs:
+                                out[v] = k
+                    elif rv['r'] == 'use' and not st['lhs']['p'] and const_val(rv['o']) is not None and isinstance(const_val(rv['o']), int):
+                        # constant stored to a local that is later a `%` divisor
+                        l = st['lhs']['l']
+                        k = const_val(rv['o'])
+                        used = any(s2['k'] == 'assign' and s2['rv']['r'] == 'bin' and s2['rv']['op'] == 'Rem' and
+                                   (op_local(s2['rv']['b']) == l or any(
+                                       s3['k'] == 'assign' and s3['lhs']['l'] == op_local(s2['rv']['b']) and s3['rv']['r'] == 'use' and op_local(s3['rv']['o']) == l
+                                       for b3 in f.blocks for s3 in b3['stmts']))
+                                   for b2 in f.blocks for s2 in b2['stmts'])
+                        if used and k > 1:
+                            for v in vs:
+                                out[v] = k
+    return out
+
+
+@rule('VALIDATE-PARITY', ['C19', 'C02'], floor=2)
+def validate_parity(ctx):
+    """Whatever the XZ reader rejects in a pre-filter's property the XZ writer rejects as well (instead of
+    writing a file its own reader refuses): the per-filter alignment table of BCJ start offsets
+    (`offset % k`, k chosen by filter type) is the same in the reader's block header parser and in the writer,
+    and the writer range-checks the delta distance (1..=256) that it stores in one byte."""
+    F = ctx.facts
+    rt = wt = None
+    rf = wf = None
+    for f in F.fns:
+        if f.kind == 'closure' or not f.self_adt:
+            continue
+        nm = last_seg(f.self_adt)
+        if nm not in ('BlockHeader', 'XZReader', 'XZWriter'):
+            continue
+        tab = _variant_rem_table(F, f, Prov(f))
+        if not tab:
+            continue
+        if nm == 'XZWriter':
+            wt, wf = tab, f
+        else:
+            rt, rf = tab, f
+    if rt is None:
+        return ctx.anchor_missing('BCJ start offset alignment table in the XZ reader')
+    adt = [a for p, a in F.adts.items() if last_seg(p) == 'FilterType']
+    names = {v['idx']: v['name'] for v in adt[0]['variants']} if adt else {}
+    key = 'XZWriter:bcj-offset-alignment-table'
+    if wt is None:
+        ctx.violation(key, rf.loc(0), 'the reader (%s) rejects BCJ start offsets that are not aligned (%s) but the writer has no such check: '
+                      'it reports success for a file its own reader refuses' % (rf.key, ', '.join('%s %% %d' % (names.get(v, v), k) for v, k in sorted(rt.items()))))
+    else:
+        diff = {v: (rt.get(v, 1), wt.get(v, 1)) for v in set(rt) | set(wt) if rt.get(v, 1) != wt.get(v, 1)}
+        if diff:
+            ctx.violation(key, wf.loc(0), 'alignment tables differ (filter: reader, writer): %s' % ', '.join(
+                '%s: %d, %d' % (names.get(v, v), a, b) for v, (a, b) in sorted(diff.items())))
+        else:
+            ctx.ok(key, wf.loc(0), 'reader %s and writer %s agree: %s' % (rf.key, wf.key, ', '.join('%s %% %d' % (names.get(v, v), k) for v, k in sorted(rt.items()))))
+    # delta distance: stored as (distance - 1) as u8 -> needs a 1..=256 check somewhere in the writer
+    key = 'XZWriter:delta-distance-range'
+    found = None
+    for f in F.fns:
+        if f.self_adt and last_seg(f.self_adt) == 'XZWriter' and f.kind != 'closure':
+            prov = Prov(f)
+            for bi, t, c in f.calls():
+                if c.is_('RangeInclusive::contains'):
+                    a0 = prov.operand(t['args'][0], 0, '%d:T' % bi)
+                    a1 = prov.operand(t['args'][1], 0, '%d:T' % bi) if len(t['args']) > 1 else ('none',)
+                    consts = sorted(x[2] for x in expr_walk(a0) if x[0] == 'const' and isinstance(x[2], int))
+                    for x in expr_walk(a0):
+                        if x[0] == 'const' and isinstance(x[2], dict) and x[2].get('fields'):
+                            fv = {fl['name']: fl['v'] for fl in x[2]['fields']}
+                            consts += [fv.get('start'), fv.get('end')]
+                    if 1 in consts and 256 in consts and any(y[0] == 'field' and y[2] == 'property' for y in expr_walk(a1)):
+                        found = (f, bi)
+            for s in f.reachable:
+                tt = f.blocks[s]['term']
+                if tt['k'] == 'switch':
+                    cond = prov.operand(tt['discr'], 0, '%d:T' % s)
+                    cs = {x[2] for x in expr_walk(cond) if x[0] == 'const' and isinstance(x[2], int)}
+                    if 256 in cs and any(x[0] == 'field' and x[2] == 'property' for x in expr_walk(cond)):
+                        found = found or (f, s)
+    if found:
+        ctx.ok(key, found[0].loc(found[1]), 'delta distance checked against 1..=256 in %s' % found[0].key)
+    else:
+        ctx.violation(key, '-', 'the writer stores the delta distance as (distance - 1) in one byte without checking 1 <= distance <= 256: '
+                      '0 underflows (panic) and 257.. is truncated to another distance than the one the data was filtered with')
